@@ -614,3 +614,176 @@ Proof.
   destruct (Z.leb_spec 0 i); destruct (Z.ltb_spec i (range_count r)); cbn [andb]; auto.
   rewrite range_at_ok; auto. unfold in_box. auto.
 Qed.
+
+(* ------------------------------------------------------------------ k steps along a chain *)
+Lemma step_n_fwd f u cvs (H : wb f u cvs) : forall k i, (i + k <= length cvs)%nat ->
+  step_n (it_step R f Fwd u) k (cur_at cvs i) = OVal (cur_at cvs (i + k)).
+Proof.
+  induction k; intros i Hi; cbn [step_n].
+  - now rewrite Nat.add_0_r.
+  - destruct (nth_error cvs i) as [[c v]|] eqn:E.
+    2:{ apply nth_error_None in E. lia. }
+    unfold cur_at at 1. rewrite E. cbn [option_map fst].
+    rewrite (wb_next _ _ _ H _ _ _ E). cbn [bind]. rewrite IHk by lia. do 2 f_equal. lia.
+Qed.
+
+Lemma step_n_bwd f u cvs (H : wb f u cvs) : forall k i, (k <= i)%nat -> (i <= length cvs)%nat ->
+  step_n (it_step R f Bwd u) k (cur_before cvs i) = OVal (cur_before cvs (i - k)).
+Proof.
+  induction k; intros i Hk Hi; cbn [step_n].
+  - now rewrite Nat.sub_0_r.
+  - destruct i as [|i]; [lia|]. cbn [cur_before].
+    destruct (nth_error cvs i) as [[c v]|] eqn:E.
+    2:{ apply nth_error_None in E. lia. }
+    unfold cur_at at 1. rewrite E. cbn [option_map fst].
+    rewrite (wb_prev _ _ _ H _ _ _ E). cbn [bind]. rewrite IHk by lia. reflexivity.
+Qed.
+
+(* Slice_Iter_Next / Slice_Iter_Prev move the underlying cursor |step| times towards the next selected
+   position; if that position exists in the chain, every intermediate step stays inside the chain *)
+Lemma slice_move_ok f u cvs (H : wb f u cvs) d s a b c v :
+  nth_error cvs a = Some (c, v) -> (b < length cvs)%nat -> s <> 0 ->
+  Z.of_nat b = Z.of_nat a + (match d with Fwd => s | Bwd => - s end) ->
+  (if 0 <? s then step_n (it_step R f d u) (Z.to_nat s) (Some c)
+   else if s <? 0 then step_n (it_step R f (flip d) u) (Z.to_nat (- s)) (Some c)
+   else OVal (Some c)) = OVal (cur_at cvs b).
+Proof.
+  intros E Hb Hs Hab.
+  assert (Ha : (a < length cvs)%nat) by (apply nth_error_Some; congruence).
+  assert (Hc : Some c = cur_at cvs a) by (unfold cur_at; now rewrite E).
+  assert (Hc' : Some c = cur_before cvs (S a)) by exact Hc.
+  destruct (Z.ltb_spec 0 s); [|destruct (Z.ltb_spec s 0); [|lia]]; destruct d; cbn [flip].
+  - rewrite Hc, (step_n_fwd _ _ _ H) by lia. do 2 f_equal. lia.
+  - rewrite Hc', (step_n_bwd _ _ _ H) by lia. replace (S a - Z.to_nat s)%nat with (S b) by lia. reflexivity.
+  - rewrite Hc', (step_n_bwd _ _ _ H) by lia. replace (S a - Z.to_nat (- s))%nat with (S b) by lia. reflexivity.
+  - rewrite Hc, (step_n_fwd _ _ _ H) by lia. do 2 f_equal. lia.
+Qed.
+
+(* ------------------------------------------------------------------ Slice over a well-behaved iterable *)
+(* what slice_stack guarantees about the Slice's own range (Slice_Arg clamps start and stop to [0, n]) *)
+Definition slice_ok (r : rng) (n : Z) : Prop :=
+  in_box r /\ 0 <= r_start r <= n /\ 0 <= r_stop r <= n.
+
+Definition slice_chain (r : rng) (cvs : list (cur * val)) : list (cur * val) :=
+  map (fun p => match nth_error cvs (Z.to_nat p) with
+                | Some (c, v) => (CSlice c p, v)
+                | None => (CPos 0, VInt 0)
+                end) (range_elems r).
+
+Lemma slice_pos_ok r (cvs : list (cur * val)) i : slice_ok r (zlen cvs) -> (i < Z.to_nat (range_count r))%nat ->
+  0 <= range_val r (Z.of_nat i) /\ (Z.to_nat (range_val r (Z.of_nat i)) < length cvs)%nat.
+Proof.
+  intros (Hb & Hs & Ht) Hi.
+  assert (0 <= Z.of_nat i < range_count r) as Hi' by lia.
+  pose proof (range_val_bounds r _ Hb Hi'). unfold zlen in *. lia.
+Qed.
+
+Lemma slice_chain_at r cvs i : slice_ok r (zlen cvs) ->
+  cur_at (slice_chain r cvs) i =
+  if (i <? Z.to_nat (range_count r))%nat
+  then option_map (fun c => CSlice c (range_val r (Z.of_nat i))) (cur_at cvs (Z.to_nat (range_val r (Z.of_nat i))))
+  else None.
+Proof.
+  intros Hok. unfold cur_at, slice_chain. rewrite nth_error_map.
+  destruct (Nat.ltb_spec i (Z.to_nat (range_count r))) as [Hi|Hi].
+  - rewrite range_elems_nth by auto. cbn [option_map].
+    destruct (slice_pos_ok r cvs i Hok Hi) as [_ Hp].
+    destruct (nth_error cvs (Z.to_nat (range_val r (Z.of_nat i)))) as [[c v]|] eqn:E; [reflexivity|].
+    apply nth_error_None in E. lia.
+  - assert (nth_error (range_elems r) i = None) as -> by (apply nth_error_None; now rewrite range_elems_length).
+    reflexivity.
+Qed.
+
+Lemma slice_chain_nth r cvs i c' v' : slice_ok r (zlen cvs) ->
+  nth_error (slice_chain r cvs) i = Some (c', v') ->
+  (i < Z.to_nat (range_count r))%nat /\
+  exists c, nth_error cvs (Z.to_nat (range_val r (Z.of_nat i))) = Some (c, v') /\
+            c' = CSlice c (range_val r (Z.of_nat i)).
+Proof.
+  intros Hok E.
+  assert (Hi : (i < Z.to_nat (range_count r))%nat).
+  { assert (i < length (slice_chain r cvs))%nat by (apply nth_error_Some; congruence).
+    unfold slice_chain in *. now rewrite map_length, range_elems_length in H. }
+  split; auto. unfold slice_chain in E. rewrite nth_error_map, range_elems_nth in E by auto.
+  cbn [option_map] in E. destruct (slice_pos_ok r cvs i Hok Hi) as [_ Hp].
+  destruct (nth_error cvs (Z.to_nat (range_val r (Z.of_nat i)))) as [[c v]|] eqn:E2.
+  - inversion E; subst. eauto.
+  - apply nth_error_None in E2. lia.
+Qed.
+
+Lemma slice_chain_length r cvs : length (slice_chain r cvs) = Z.to_nat (range_count r).
+Proof. unfold slice_chain. now rewrite map_length, range_elems_length. Qed.
+
+Theorem wb_slice f u cvs r : wb f u cvs -> it_len R u = OVal (zlen cvs) -> slice_ok r (zlen cvs) ->
+  wb f (ISlice u r) (slice_chain r cvs).
+Proof.
+  intros H Hlen Hok. pose proof Hok as (Hb & Hs & Ht).
+  pose proof (range_count_nonneg r) as Hc0.
+  assert (Hn : r_step r <> 0) by (destruct Hb as (_ & _ & _ & ?); auto).
+  constructor.
+  - (* Slice_Iter_Init *)
+    cbn [it_start slice_bounded repaired ostart]. rewrite range_init_ok by auto.
+    rewrite slice_chain_at by auto.
+    destruct (Z.ltb_spec 0 (range_count r)) as [Hc|Hc].
+    2:{ replace (0 <? Z.to_nat (range_count r))%nat with false by (symmetry; apply Nat.ltb_ge; lia). reflexivity. }
+    replace (0 <? Z.to_nat (range_count r))%nat with true by (symmetry; apply Nat.ltb_lt; lia).
+    destruct (slice_pos_ok r cvs 0 Hok ltac:(lia)) as [Hp0 Hp1].
+    assert (0 <= 0 < range_count r) as H0 by lia. pose proof (range_val_bounds r 0 Hb H0) as Hv.
+    change (Z.of_nat 0) with 0 in *.
+    destruct (Z.ltb_spec 0 (r_step r)) as [Hpos|Hneg].
+    + rewrite (wb_init _ _ _ H). cbn [bind]. rewrite (step_n_fwd _ _ _ H) by (unfold zlen in *; lia).
+      cbn [bind]. assert (range_val r 0 = r_start r) as -> by (unfold range_val; replace (0 <? r_step r) with true by (symmetry; apply Z.ltb_lt; lia); lia).
+      reflexivity.
+    + replace (r_step r <? 0) with true by (symmetry; apply Z.ltb_lt; lia).
+      rewrite (wb_last _ _ _ H), Hlen. cbn [bind].
+      assert (range_val r 0 = r_stop r - 1) as Hv0 by (unfold range_val; replace (0 <? r_step r) with false by (symmetry; apply Z.ltb_ge; lia); lia).
+      rewrite (step_n_bwd _ _ _ H) by (unfold zlen in *; lia). cbn [bind]. rewrite Hv0.
+      replace (length cvs - Z.to_nat (zlen cvs - r_stop r))%nat with (S (Z.to_nat (r_stop r - 1))) by (unfold zlen in *; lia).
+      reflexivity.
+  - (* Slice_Iter_Last *)
+    cbn [it_start slice_bounded repaired ostart]. rewrite range_last_ok by auto.
+    rewrite slice_chain_length.
+    destruct (Z.ltb_spec 0 (range_count r)) as [Hc|Hc].
+    2:{ replace (Z.to_nat (range_count r)) with 0%nat by lia. reflexivity. }
+    destruct (Z.to_nat (range_count r)) as [|m] eqn:Em; [lia|]. cbn [cur_before].
+    rewrite slice_chain_at, Em by auto.
+    replace (m <? S m)%nat with true by (symmetry; apply Nat.ltb_lt; lia).
+    replace (range_count r - 1) with (Z.of_nat m) by lia.
+    destruct (slice_pos_ok r cvs m Hok ltac:(lia)) as [Hp0 Hp1].
+    assert (0 <= Z.of_nat m < range_count r) as Hm by lia. pose proof (range_val_bounds r _ Hb Hm) as Hv.
+    destruct (Z.ltb_spec 0 (r_step r)) as [Hpos|Hneg].
+    + rewrite (wb_last _ _ _ H), Hlen. cbn [bind].
+      rewrite (step_n_bwd _ _ _ H) by (unfold zlen in *; lia). cbn [bind].
+      replace (length cvs - Z.to_nat (zlen cvs - 1 - range_val r (Z.of_nat m)))%nat
+        with (S (Z.to_nat (range_val r (Z.of_nat m)))) by (unfold zlen in *; lia).
+      reflexivity.
+    + replace (r_step r <? 0) with true by (symmetry; apply Z.ltb_lt; lia).
+      rewrite (wb_init _ _ _ H). cbn [bind]. rewrite (step_n_fwd _ _ _ H) by (unfold zlen in *; lia).
+      reflexivity.
+  - intros i c' v' E. destruct (slice_chain_nth _ _ _ _ _ Hok E) as (Hi & c & E2 & ->).
+    cbn [cur_val]. apply (wb_val _ _ _ H _ _ _ E2).
+  - (* Slice_Iter_Next *)
+    intros i c' v' E. destruct (slice_chain_nth _ _ _ _ _ Hok E) as (Hi & c & E2 & ->).
+    cbn [it_step slice_bounded repaired ostep]. rewrite range_next_ok by (auto; lia).
+    rewrite slice_chain_at by auto.
+    destruct (Z.ltb_spec (Z.of_nat i + 1) (range_count r)) as [Hn1|Hn1].
+    2:{ replace (S i <? Z.to_nat (range_count r))%nat with false by (symmetry; apply Nat.ltb_ge; lia). reflexivity. }
+    replace (S i <? Z.to_nat (range_count r))%nat with true by (symmetry; apply Nat.ltb_lt; lia).
+    destruct (slice_pos_ok r cvs (S i) Hok ltac:(lia)) as [Hq0 Hq1].
+    destruct (slice_pos_ok r cvs i Hok ltac:(lia)) as [Hp0 Hp1].
+    replace (Z.of_nat i + 1) with (Z.of_nat (S i)) by lia.
+    rewrite (slice_move_ok f u cvs H Fwd (r_step r) _ (Z.to_nat (range_val r (Z.of_nat (S i)))) c v' E2); auto.
+    unfold range_val in *. lia.
+  - (* Slice_Iter_Prev *)
+    intros i c' v' E. destruct (slice_chain_nth _ _ _ _ _ Hok E) as (Hi & c & E2 & ->).
+    cbn [it_step slice_bounded repaired ostep]. rewrite range_prev_ok by (auto; lia).
+    destruct i as [|i]; [reflexivity|].
+    replace (0 <? Z.of_nat (S i)) with true by (symmetry; apply Z.ltb_lt; lia).
+    cbn [cur_before]. rewrite slice_chain_at by auto.
+    replace (i <? Z.to_nat (range_count r))%nat with true by (symmetry; apply Nat.ltb_lt; lia).
+    destruct (slice_pos_ok r cvs (S i) Hok ltac:(lia)) as [Hq0 Hq1].
+    destruct (slice_pos_ok r cvs i Hok ltac:(lia)) as [Hp0 Hp1].
+    replace (Z.of_nat (S i) - 1) with (Z.of_nat i) by lia.
+    rewrite (slice_move_ok f u cvs H Bwd (r_step r) _ (Z.to_nat (range_val r (Z.of_nat i))) c v' E2); auto.
+    unfold range_val in *. lia.
+Qed.
